@@ -6,6 +6,12 @@ import (
 	"strings"
 	"testing"
 
+	"github.com/henrylee2cn/erpc/v6/codec"
+	"github.com/henrylee2cn/erpc/v6/mixer/websocket/jsonSubProto"
+	"github.com/henrylee2cn/erpc/v6/mixer/websocket/pbSubProto"
+	wspb "github.com/henrylee2cn/erpc/v6/mixer/websocket/pbSubProto/pb"
+	"github.com/henrylee2cn/erpc/v6/proto/jsonproto"
+	"github.com/henrylee2cn/erpc/v6/proto/pbproto"
 	"github.com/henrylee2cn/erpc/v6/socket"
 	"github.com/henrylee2cn/erpc/v6/xfer"
 	"pgregory.net/rapid"
@@ -130,7 +136,7 @@ func bucket(n int) int {
 
 // TestC12Unregistered: a pipe naming an unregistered filter is refused.
 func TestC12Unregistered(t *testing.T) {
-	rec := vt.NewRec(t, "C12", "unregistered", "pipe id lists containing at least one unregistered id at a generated position; oracle: XferPipe.Append errors, and unpacking a raw-protocol frame naming that id errors instead of passing the payload through; every case is non-trivial; distinct by id list")
+	rec := vt.NewRec(t, "C12", "unregistered", "pipe id lists containing at least one unregistered id at a generated position; oracle: XferPipe.Append errors, and unpacking a raw-protocol frame naming that id - or a json / protobuf / websocket-json / websocket-protobuf frame whose single pipe id was replaced by it - errors instead of passing the payload through; every case is non-trivial; distinct by id list")
 	rapid.Check(t, func(t *rapid.T) {
 		vt.Init()
 		ids := rapid.SliceOfN(rapid.SampledFrom(vt.RegisteredXfer), 0, 4).Draw(t, "good")
@@ -170,6 +176,52 @@ func TestC12Unregistered(t *testing.T) {
 		if err == nil {
 			t.Fatalf("frame naming unregistered filter %d in pipe %x was accepted (body %q)", bad, all, vt.BodyBytes(rm))
 		}
+		// the other protocols that carry a pipe: a frame packed with the one-filter pipe [gzip]
+		// whose pipe id is then replaced, in the frame, by the unregistered id
+		one := vt.Msg{Seq: 7, Mtype: 1, Method: "/m", Body: []byte("payload payload payload"), Codec: 's', Pipe: []byte{vt.XGzip5}}
+		for _, pr := range []struct {
+			name  string
+			fn    socket.ProtoFunc
+			patch func(f []byte) []byte
+		}{
+			{"json", jsonproto.NewJSONProtoFunc(), func(f []byte) []byte { f[5] = bad; return f }},
+			{"pb", pbproto.NewPbProtoFunc(), func(f []byte) []byte { f[5] = bad; return f }},
+			{"ws-json", jsonSubProto.NewJSONSubProtoFunc(), func(f []byte) []byte {
+				return bytes.Replace(f, []byte(fmt.Sprintf(`"xferPipe":[%d]`, vt.XGzip5)), []byte(fmt.Sprintf(`"xferPipe":[%d]`, bad)), 1)
+			}},
+			{"ws-pb", pbSubProto.NewPbSubProtoFunc(), func(f []byte) []byte {
+				var pl wspb.Payload
+				if err := codec.ProtoUnmarshal(f, &pl); err != nil {
+					t.Fatalf("harness: ws-pb frame does not decode: %v", err)
+				}
+				pl.XferPipe = []byte{bad}
+				out, _ := codec.ProtoMarshal(&pl)
+				return out
+			}},
+		} {
+			w2 := &vt.RW{}
+			if err := pr.fn(w2).Pack(one.Build()); err != nil {
+				t.Fatalf("%s: Pack with pipe [gzip]: %v", pr.name, err)
+			}
+			orig := append([]byte(nil), w2.Written()...)
+			patched := pr.patch(append([]byte(nil), orig...))
+			if bytes.Equal(patched, orig) {
+				t.Fatalf("harness: %s frame was not patched", pr.name)
+			}
+			r2 := vt.NewReceiver()
+			var err2 error
+			func() {
+				defer func() {
+					if p := recover(); p != nil {
+						err2 = fmt.Errorf("panic: %v", p)
+					}
+				}()
+				err2 = pr.fn(&vt.RW{In: patched}).Unpack(r2)
+			}()
+			if err2 == nil {
+				t.Fatalf("%s: a frame naming the unregistered filter %d was accepted (delivered body %q)", pr.name, bad, vt.BodyBytes(r2))
+			}
+		}
 	})
 }
 
@@ -204,11 +256,40 @@ func corruptionCheck(ids []byte, orig, packed []byte, pos int, mask byte) string
 	return ""
 }
 
+// truncationCheck: the packed payload cut to n bytes (n < len) is refused, or - when md5 is
+// not the outermost filter - at worst yields the original payload.
+func truncationCheck(ids []byte, orig, packed []byte, n int) string {
+	p := xfer.NewXferPipe()
+	if err := p.Append(ids...); err != nil {
+		return "append: " + err.Error()
+	}
+	var got []byte
+	var err error
+	func() {
+		defer func() {
+			if r := recover(); r != nil {
+				err = fmt.Errorf("panic: %v", r)
+			}
+		}()
+		got, err = p.OnUnpack(append([]byte(nil), packed[:n]...))
+	}()
+	if err != nil {
+		return ""
+	}
+	if ids[0] == vt.XMd5 {
+		return fmt.Sprintf("md5 is the outermost filter of pipe %q, the packed payload (%d bytes) was cut to %d bytes, and unpacking reported no error", ids, len(packed), n)
+	}
+	if !bytes.Equal(got, orig) {
+		return fmt.Sprintf("pipe %q: the packed payload (%d bytes) cut to %d bytes yielded a different payload (%d bytes) without error", ids, len(packed), n, len(got))
+	}
+	return ""
+}
+
 // TestC12Corruption: every single-byte corruption of a packed payload is
 // detected when md5 is the outermost filter; for inner positions the result is
 // an error or the original payload, never a different payload.
 func TestC12Corruption(t *testing.T) {
-	rec := vt.NewRec(t, "C12", "corruption", "pipes containing md5 x payload; ALL byte positions of the packed payload x xor masks {0x01,0x80,0xff} (quick) are corrupted one at a time; oracle: md5 outermost => error; otherwise error or the original payload; every case non-trivial; distinct by (pipe,payload)")
+	rec := vt.NewRec(t, "C12", "corruption", "pipes containing md5 x payload; ALL byte positions of the packed payload x xor masks {0x01,0x80,0xff} (quick) are corrupted one at a time, and the packed payload is cut to 0 / 1 / half / all-but-one bytes; oracle: md5 outermost => error; otherwise error or the original payload; every case non-trivial; distinct by (pipe,payload)")
 	rapid.Check(t, func(t *rapid.T) {
 		vt.Init()
 		var ids []byte
@@ -239,6 +320,16 @@ func TestC12Corruption(t *testing.T) {
 			}
 		}
 		rec.Class("single-byte-corruptions", n)
+		// truncations: to nothing, to one byte, to half, by one byte
+		for _, cut := range []int{0, 1, len(packed) / 2, len(packed) - 1} {
+			if cut < 0 || cut >= len(packed) {
+				continue
+			}
+			if d := truncationCheck(ids, pay, packed, cut); d != "" {
+				t.Fatalf("%s (payload %s)", d, vt.Hex(pay))
+			}
+			rec.Class("truncations", 1)
+		}
 	})
 }
 
